@@ -33,6 +33,9 @@ def run(ctx):
     rule_R1(ctx, repo, eng)
     from .. import escape
     escape.rule_C01_E2(ctx, repo)
+    rc = ctx.rule('C01.K1', 'the element size limit is 0x02000000 bytes (what a reader accepts equals what Bitcoin Core accepts)', engine='CONST', floor=1)
+    ms_ = repo.module_value(repo.get_module('bitcoin.core.serialize'), 'MAX_SIZE')
+    rc.check(ms_ == 0x02000000, 'MAX_SIZE', 'bitcoin/core/serialize.py:0', '0x02000000', 'MAX_SIZE is %r' % (ms_,), sure=True)
     rd = ctx.rule('C01.F1', 'defaults of the wire classes: serialisation includes the witness unless told otherwise; default header hashes are 32 bytes', engine='CONST', floor=6)
     Z32 = b'\x00' * 32
     common.rule_defaults(rd, repo, [
